@@ -117,6 +117,25 @@ fn faulty_payload(fault: &str, pos: &str) -> Vec<u8> {
                 b.symbols.push(format!("sym{i}"));
             }
         }
+        f if f.starts_with("date_") => {
+            // a date is a u64 on the wire, read as a signed number of seconds: the ends of what can be printed
+            let secs: i64 = match f {
+                "date_year_minus_1" => -62167219201,            // 31 December of year -1
+                "date_year_minus_9999" => -377705116800,        // 1 January of year -9999
+                "date_below_year_minus_9999" => -377705116801,
+                "date_i64_min" => i64::MIN,
+                "date_u64_max" => -1,
+                "date_year_10000" => 253402300800,
+                _ => i64::MAX,
+            };
+            let d = term(term_v2::Content::Date(secs as u64));
+            b.facts_v2[0].predicate.terms[0] = d.clone();
+            // ... and in a check that FAILS, so that the error carries the printed check
+            ops_of(&mut b, vec![val(term_v2::Content::Date(secs as u64)), val(term_v2::Content::Date(secs as u64)), bin(0)]);
+        }
+        "int_i64_min_fact" => b.facts_v2[0].predicate.terms[0] = term(term_v2::Content::Integer(i64::MIN)),
+        "bytes_empty" => b.facts_v2[0].predicate.terms[0] = term(term_v2::Content::Bytes(vec![])),
+        "string_empty_symbol" => { b.symbols.push(String::new()); let i = 1024 + b.symbols.len() as u64 - 1; b.facts_v2[0].predicate.terms[0] = term(term_v2::Content::String(i)); }
         "payload_garbage" => return vec![0xff, 0x13, 0x37, 0x00, 0x81, 0x82, 0x83, 0xff, 0xff, 0xff, 0xff, 0x0f],
         "payload_empty" => return vec![],
         o => panic!("unknown fault {o}"),
